@@ -20,13 +20,27 @@ pub fn span_j(tcx: TyCtxt<'_>, sp: Span) -> J {
             .unwrap_or_else(|| format!("{:?}", lo.file.name)),
         other => format!("{:?}", other),
     };
-    J::obj(vec![
+    let mut v = vec![
         ("file", J::Str(file)),
         ("line", J::Int(lo.line as i128)),
         ("col", J::Int(lo.col.0 as i128 + 1)),
         ("end_line", J::Int(hi.line as i128)),
         ("exp", J::Bool(sp.from_expansion())),
-    ])
+    ];
+    if sp.from_expansion() {
+        let outer = sp.ctxt().outer_expn_data();
+        if let rustc_span::ExpnKind::Macro(kind, name) = outer.kind {
+            v.push(("exp_kind", J::Str(format!("{:?}", kind))));
+            v.push(("exp_macro", J::Str(name.to_string())));
+            v.push((
+                "exp_local",
+                J::Bool(outer.macro_def_id.map(|d| d.is_local()).unwrap_or(false)),
+            ));
+        } else {
+            v.push(("exp_kind", J::Str(format!("{:?}", outer.kind))));
+        }
+    }
+    J::obj(v)
 }
 
 struct V<'tcx> {
